@@ -608,3 +608,22 @@ helpers.install(P, 'kwargs', ('convert_unit', [('kcal/mol', ['J/mol', 'kJ/mol', 
                                                ('mol', ['mol', 'molec', 'molecule']), ('cm2', ['m2', 'cm2']),
                                                ('g', ['kg', 'g']), ('cm3', ['m3', 'cm3']),
                                                ('kcal', ['J', 'kJ', 'cal', 'kcal', 'eV'])]))
+
+# ---- NASA-9 species with three and four intervals stored in any order: ranges ascending, every row with its own range --------
+for order in ((1, 0, 2), (2, 0, 1), (0, 2, 1), (1, 2, 0), (2, 1, 0), (0, 1, 2), (2, 0, 3, 1)):
+    bounds = [(200., 1000.), (1000., 6000.), (6000., 20000.), (20000., 30000.)][:len(order)]
+    n9_ = New(NS + 'Nasa9', name=Const('H2O'), elements=Const({'H': 2, 'O': 1}),
+              nasas=ListOf([New(NS + 'SingleNasa9', T_low=Const(bounds[j][0]), T_high=Const(bounds[j][1]), a=RealVec(9, -5., 5.)) for j in order]))
+    pos = [order.index(j) for j in range(len(order))]
+    contract(NS + 'Nasa9.to_omkm_yaml', P, label='intervals-stored-in-order-%s' % '-'.join(map(str, order)), args=dict(self=n9_),
+             ensures=[('ranges-ascending', 'result["thermo"]["temperature-ranges"] == %r' % ([b[0] for b in bounds] + [bounds[-1][1]])),
+                      ('coefficients-in-the-order-of-the-ranges',
+                       'result["thermo"]["data"] == [%s]' % ', '.join('list(self.nasas[%d].a)' % k for k in pos))], cross_check=False)
+
+# ---- a single operating value wins over the first of a multi-run list, for every such pair ------------------------------------
+for single, multi, where, key, unit in (('T', 'multi_T', 'reactor', 'temperature', None), ('P', 'multi_P', 'reactor', 'pressure', '_pressure'),
+                                        ('flow_rate', 'multi_flow_rate', 'inlet_gas', 'flow_rate', '_length3/_time')):
+    val = single if unit is None else '%s(%s, %r, units)' % (WU, single, unit)
+    contract(IO + 'write_yaml', P, label='single-%s-wins-over-%s' % (single, multi),
+             args={single: R(300., 900.), multi: RealList(3, 300., 900.), 'units': UNITS()},
+             ensures=[('the-single-value-is-written', DUMPED + '[%r][%r] == %s' % (where, key, val))], options=PLAIN, cross_check=False)
